@@ -546,3 +546,16 @@ def _lossy_check(wd, ws, wp, comm_dt, pdt, communicate_params: bool, probes: Cou
     if float(((wd64 - ws64).abs() - bound).max()) > 0.0:
         return float(((wd64 - ws64).abs() / (bound + 1e-300)).max())
     return None
+
+
+def world_digest(sim, outs: list[RankOut]) -> str:
+    h = hashlib.sha256()
+    h.update(repr(sim.choices).encode())
+    h.update(repr([(e[1], e[2]) + tuple(repr(x) for x in e[3:]) for e in sim.log]).encode())
+    h.update(sim.outcome.encode())
+    for o in outs:
+        for ei in sorted(o.snaps):
+            for t in o.snaps[ei]:
+                h.update(spec.tensor_bytes(t))
+        h.update(repr(sorted(o.steps.items())).encode())
+    return h.hexdigest()[:20]
